@@ -374,13 +374,13 @@ fn ref_day() -> BoxedStrategy<i64> {
     .boxed()
 }
 
-fn round_case() -> BoxedStrategy<RoundCase> {
+pub fn round_case() -> BoxedStrategy<RoundCase> {
     (ref_day(), mixed_dur(), round_opts(), gen::mode()).prop_map(|(r, d, (largest, smallest, inc), mode)| RoundCase { r, d, largest, smallest, inc, mode }).boxed()
 }
-fn total_case() -> BoxedStrategy<TotalCase> {
+pub fn total_case() -> BoxedStrategy<TotalCase> {
     (ref_day(), mixed_dur(), gen::unit_in(0, 9)).prop_map(|(r, d, unit)| TotalCase { r, d, unit }).boxed()
 }
-fn compare_case() -> BoxedStrategy<CompareCase> {
+pub fn compare_case() -> BoxedStrategy<CompareCase> {
     (ref_day(), mixed_dur(), mixed_dur(), 0u8..4)
         .prop_map(|(r, a, b, k)| match k {
             // the same span in another shape: months <-> days relative to r
@@ -407,7 +407,7 @@ fn compare_case() -> BoxedStrategy<CompareCase> {
         })
         .boxed()
 }
-fn until_case() -> BoxedStrategy<UntilCase> {
+pub fn until_case() -> BoxedStrategy<UntilCase> {
     (gen::day_pair(), gen::ns_of_day(), gen::ns_of_day(), round_opts(), gen::mode(), prop::bool::ANY, prop::bool::weighted(0.3))
         .prop_map(|((a, b), a_ns, b_ns, (l, s, inc), mode, since, pd)| {
             let mut largest = match l {
